@@ -37,7 +37,7 @@ ASSUMPTIONS = [
 ]
 TIMEOUT = {"quick": 900, "thorough": 6 * 3600}
 NSH = 16
-OFFSETS = [0, 1, 5, 255, 256, 65535, 65536]
+OFFSETS = [0, 1, 5, 255, 256, 65535, 65536, 0x7FFFFFF0, 0x80000000, 0xFFFF0000]
 
 
 def plan(tier, seed):
